@@ -258,12 +258,6 @@ package jet
 //@   props C10 C05
 //@   nocrash
 //@   modifies type sliceRanger.i, type sliceRanger.v, type mapRanger.iter, type mapRanger.hasMore, type chanRanger.v
-//@ func (*sync.Pool).Get
-//@   trusted sync library
-//@   nopanic
-//@ func (*sync.Pool).Put
-//@   trusted sync library
-//@   nopanic
 
 // ---- evaluation: every evaluator leaves S(st) as it found it on normal return ----------------------
 //@ func (*Runtime).evalPrimaryExpressionGroup
@@ -480,3 +474,39 @@ package jet
 //@ func (*Set).getSiblingTemplate
 //@   props C15 C16
 //@   requires s != nil
+
+// ---- Execute: a pure function of its inputs (C10) --------------------------------------------------
+
+// What every *Runtime inside pool_State satisfies: nothing of an earlier execution survives.
+//@ pred PoolInv(st *Runtime) := st != nil && st.escapeeWriter != nil && st.scope != nil && st.scope.parent == nil && st.scope.variables == nil && st.scope.blocks == nil && !RvValid(st.context) && st.content == nil
+
+//@ func (*sync.Pool).Get
+//@   trusted sync library; for pool_State the postcondition is the pool invariant: every value ever put into pool_State (by its New function init$1 or by (*Runtime).recover, the only Put site) satisfies PoolInv
+//@   params p
+//@   nopanic
+//@   ensures p == gaddr(pool_State) ==> istype(result, "*Runtime") && PoolInv(as(result, "*Runtime")) && allocated(as(result, "*Runtime"))
+//@ func (*sync.Pool).Put
+//@   trusted sync library
+//@   params p, x
+//@   nopanic
+
+//@ frame {C10} calls (*sync.Pool).Put only-in (*Runtime).recover, getRanger
+
+//@ func init$1
+//@   props C10
+//@   nopanic
+//@   ensures [pool-new-satisfies-invariant] istype(result, "*Runtime") && PoolInv(as(result, "*Runtime"))
+
+//@ func (*Runtime).recover
+//@   props C10 C12
+//@   inline
+
+//@ func (*Template).Execute
+//@   props C10 C08 C12
+//@   nocrash
+//@   requires t != nil && t.set != nil && t.set.gmx != nil
+//@   modifies @Interp, type Runtime.escapeeWriter, type escapeeWriter.set, type scope.blocks, type scope.variables, type scope.parent
+//@   loop 0 invariant t != nil
+//@   callsite (*sync.Pool).Put 0 requires [pool-invariant-at-put] p == gaddr(pool_State) && istype(x, "*Runtime") && PoolInv(as(x, "*Runtime"))
+//@   callsite (*Runtime).executeList 0 requires [execution-state-determined-by-inputs] st.scope.blocks == caller.t.processedBlocks && st.scope.variables == caller.variables && st.scope.parent == nil && st.escapeeWriter.set == caller.t.set && st.escapeeWriter.Writer == caller.w && st.content == nil && ite(caller.data != nil, st.context == RvOf(caller.data), !RvValid(st.context))
+//@   callsite (*Runtime).executeList count 1
